@@ -14,7 +14,7 @@ LEVEL = 'exploration'
 RULE = (
     'cases: margin-controlled pipeline systems (lattice zoo; 2-6 sites with 1-3 labels assigned non-contiguously; '
     '1-3 diffusing Li atoms with hop histories incl. transit through no-site; 2-5 framework atoms of 1-3 other '
-    'species), cut-off 2-6 A, resolution in {0.1, 0.25, 0.5}.  Both public functions are run on the same system.  '
+    'species), cut-off 2-6 A, resolution in {0.1, 0.25, 0.5}.  Both public functions are run on the same system; a third of the systems carry several species variants per chemical symbol (Element next to neutral / differently charged Species).  '
     'Oracle: explicit pair loops with image-enumeration distances; state of every (frame, atom) from the loop '
     'fill-model of the states the Transitions object reports.  Non-trivial = more than one site label, at least '
     'one frame in an X->Y transit state and at least one pair inside the cut-off; distinct = SHA-1 of (positions, '
@@ -107,7 +107,11 @@ def run_unit(unit, rng, ctx):
     amb_total = 0
     with warnings.catch_warnings():
         warnings.simplefilter('ignore')
-        traj = sys_.trajectory(species_mode='mixed', rng=rng)
+        # a third of the systems have several species variants per symbol (mixed valence, Element next to Species)
+        smode = 'valence' if unit['i'] % 3 == 2 else 'mixed'
+        traj = sys_.trajectory(species_mode=smode, rng=rng)
+        ctx.count(f'species_objects:{smode}')
+        ctx.count('symbols_with_several_species_variants', sum(len({repr(sp) for sp, n_ in zip(traj.species, names) if n_ == sym}) > 1 for sym in set(names)))
         # ---- species-pair RDF -------------------------------------------------------------------
         bins = np.arange(0, max_dist + res, res)
         nb = len(bins) - 1
